@@ -90,6 +90,38 @@ def relabel_reorder(rng, X):
     return Y[order]
 
 
+def lmi_pairs(rng, n):
+    """LMI family (through CVXOPT): the fitted matrix is the one of the pairs of ITS OWN data matrix, also when an earlier
+    fit in the same process saw a data matrix with the same unshifted side and another shifted side (only the last sample
+    of an episode differs), or the same matrix with another n_inputs.  Reference: Edmd with the same Tikhonov alpha."""
+    import pykoop.lmi_regressors as L
+    from .. import lmi
+    bad = []; done = 0
+    for t in range(n):
+        ns, nu, X = float_case(rng)
+        X2 = np.array(X, copy=True)
+        labs = X2[:, 0]
+        last = int(np.flatnonzero(labs == labs[0])[-1])
+        X2[last, 1:1 + ns] += rng.normal(size=ns)              # changes the shifted side only
+        inv = ['chol', 'svd', 'eig'][t % 3]
+        for name, Xa, Xb in (('same unshifted side, other last sample', X, X2), ('fresh', None, X)):
+            try:
+                if Xa is not None:
+                    L.LmiEdmd(alpha=0.1, inv_method=inv, solver_params=lmi.SOLVER).fit(Xa, n_inputs=nu, episode_feature=True)
+                reg = L.LmiEdmd(alpha=0.1, inv_method=inv, solver_params=lmi.SOLVER).fit(Xb, n_inputs=nu, episode_feature=True)
+                ref = pykoop.Edmd(alpha=0.1).fit(Xb, n_inputs=nu, episode_feature=True)
+            except Exception:  # noqa  (solver failure: not a verdict)
+                continue
+            if getattr(reg, 'solution_status_', 'optimal') != 'optimal':
+                continue
+            done += 1
+            d = float(np.max(np.abs(reg.coef_ - ref.coef_))) / max(1.0, float(np.max(np.abs(ref.coef_))))
+            if reg.coef_.shape != ref.coef_.shape or d > 2e-2:
+                bad.append(dict(kind='lmi_pairs', regressor=f'LmiEdmd(inv_method={inv})', history=name, n_states=ns, n_inputs=nu,
+                                coef_difference_to_Edmd=d, X=Xb.tolist(), X_of_the_earlier_fit=(Xa.tolist() if Xa is not None else None)))
+    return done, bad
+
+
 def direct_property(rng, n, res, samples):
     """The property's own predicate on the implementation."""
     bad = []
@@ -101,6 +133,11 @@ def direct_property(rng, n, res, samples):
         for name, mk in regressors(nu):
             try:
                 r1 = mk().fit(X, n_inputs=nu, episode_feature=True)
+                if t % 3 == 0:
+                    # every documented read-only helper (plots, frequency response, predictions) is called once: the fitted
+                    # matrix must still be the one of the training pairs afterwards
+                    from .. import readonly
+                    readonly.exercise(r1, X)
                 # explicit (unshifted, shifted): the episode column is kept for the API
                 Xu_ep = np.hstack((np.zeros((Xu.shape[0], 1)), Xu))
                 Xs_ep = np.hstack((np.zeros((Xs.shape[0], 1)), Xs))
@@ -202,6 +239,8 @@ def run(res, tier):
                 samples.append({k: v for k, v in payload.items() if k != 'X'} | {'X_head': payload['X'][:4]})
     failed, errors = batch.run(shard=30)
     n_reg, bad_reg = direct_property(rng, n_direct, res, samples)
+    n_lmi, bad_lmi = lmi_pairs(rng, 3 if tier == 'quick' else 20)
+    n_reg += n_lmi; bad_reg += bad_lmi
     res.coverage.update(
         evaluations=len(batch.meta) + n_reg,
         distinct_nontrivial=len(seen) + n_reg,
@@ -209,7 +248,8 @@ def run(res, tier):
               'regressor; the (unshifted, shifted) matrices received by _fit_regressor are compared row by row with '
               'the Coq model training_pairs evaluated by vm_compute; distinct = distinct (pipeline, layout, data) '
               'payloads; non-trivial = at least one episode with >= 2 rows. Direct: coef_ of 5 regressor classes under '
-              'explicit pairs / injective relabelling + random interleaving (rtol 1e-6).'),
+              'explicit pairs / injective relabelling + random interleaving (rtol 1e-6), also after every read-only helper was called; '
+              'LmiEdmd (CVXOPT) against Edmd on its own pairs, fresh and after a fit on a matrix with the same unshifted side.'),
         samples=samples, input_distribution=dist,
         model_vs_impl_disagreements=len(failed), coq_case_errors=len(errors),
         regressor_fits_compared=n_reg)
